@@ -34,6 +34,11 @@ type Obligation struct {
 	File      string   `json:"file"`
 	Quant     bool     `json:"quant,omitempty"`
 	IntMode   string   `json:"intmode"`
+	// replay on the real code (goreplay.go): the clause as a Go expression, where translatable
+	GoClause  string      `json:"go_clause,omitempty"`
+	GoHelpers string      `json:"go_helpers,omitempty"`
+	GoImports [][2]string `json:"go_imports,omitempty"`
+	GoWhyNot  string      `json:"go_why_not,omitempty"`
 }
 
 type FuncGen struct {
@@ -749,9 +754,13 @@ func (fg *FuncGen) run() {
 				fg.assume(fg.trBool(r.Expr, ienv))
 			}
 		}
+		for _, r := range fg.ct.EntryAssumes {
+			fg.assume(fg.trBool(r.Expr, env))
+			fg.note("ASSUMED at entry of %s (unchecked): %s", funcDisplayName(fn), r.Text)
+		}
 		fg.checkedClauses()
 		// vacuity: the preconditions (with type facts) must be satisfiable
-		if len(fg.ct.Requires) > 0 {
+		if len(fg.ct.Requires) > 0 || len(fg.ct.EntryAssumes) > 0 {
 			o := &Obligation{Name: fg.oblName("vacuity", "requires satisfiable"), Kind: "vacuity", Func: funcDisplayName(fn), Props: fg.props,
 				Prefix: len(fg.asserts), Goal: "true", ExpectSat: true}
 			fg.obls = append(fg.obls, o)
